@@ -279,7 +279,13 @@ def _convert_ellipsis(value: Any, conversion_fn: PyValToCstFunc) -> cst.CSTNode:
 def _convert_complex(value: Any, conversion_fn: PyValToCstFunc) -> cst.CSTNode:
   """Converts a constant complex number to CST."""
   del conversion_fn  # Not used.
-  if not (math.isfinite(value.real) and math.isfinite(value.imag)):
+  # Non-finite parts have no literal, and literals are unsigned: a negative
+  # (or negative zero) part cannot be written as `<float>+<float>j`.
+  if (
+      not (math.isfinite(value.real) and math.isfinite(value.imag))
+      or math.copysign(1.0, value.real) < 0
+      or math.copysign(1.0, value.imag) < 0
+  ):
     return cst.parse_expression(
         f'complex({_float_source(value.real)}, {_float_source(value.imag)})'
     )
